@@ -1,11 +1,14 @@
 #!/bin/bash
-# MANIFEST.setup_cmd: build both harness binaries once so that the Go build cache is warm.
+# MANIFEST.setup_cmd: build the harness once (plain and -race) for the claimed properties so that the Go
+# build cache is warm; every ./check invocation rebuilds incrementally against /repo's working tree.
 set -e
-cd "$(dirname "$0")/harness"
+cd "$(dirname "$0")"
 TC=/root/go/pkg/mod/golang.org/toolchain@v0.0.1-go1.26.6.linux-amd64/bin
 if [ -d "$TC" ]; then export PATH=$TC:$PATH GOTOOLCHAIN=local; fi
 export GOFLAGS=-mod=mod GOPROXY=off GOSUMDB=off
-mkdir -p ../bin ../evidence ../replays ../work
-go build -tags verif,all -o ../bin/vharness ./cmd/vharness
-go build -race -tags verif,all -o ../bin/vharness-race ./cmd/vharness
-echo setup ok
+TAGS=$(python3 -c "import json;print(','.join(['verif']+[c['property_id'].lower() for c in json.load(open('MANIFEST.json'))['checks']]))")
+mkdir -p bin evidence replays work
+cd harness
+go build -tags "$TAGS" -o ../bin/vharness ./cmd/vharness
+go build -race -tags "$TAGS" -o ../bin/vharness-race ./cmd/vharness
+echo "setup ok ($TAGS)"
